@@ -144,8 +144,13 @@ func (o genOpts) GenRuleSet(rng *rand.Rand, id int) *RuleSet {
 		rs.Services = append(rs.Services, []string{"Alpha", "Beta", "Gamma"}[s])
 	}
 	nm := 2 + rng.Intn(7)
+	perSvc := make([]int, ns)
 	for m := 0; m < nm; m++ {
-		ms := MethodSpec{Svc: rng.Intn(ns), Name: fmt.Sprintf("Me%d", m), In: "vf.Req", Out: "vf.Rsp"}
+		// method names are numbered per service, so short names collide
+		// across services (Alpha.Me0, Beta.Me0, ...)
+		sv := rng.Intn(ns)
+		ms := MethodSpec{Svc: sv, Name: fmt.Sprintf("Me%d", perSvc[sv]), In: "vf.Req", Out: "vf.Rsp"}
+		perSvc[sv]++
 		nr := 1 + rng.Intn(3)
 		hasAnn := false
 		for r := 0; r < nr; r++ {
